@@ -398,6 +398,10 @@ pub fn check(scn: &Scenario, c: &mut Counters) -> Verdict {
                     observed_r.insert(k, v);
                     St::InTracer { next: Box::new(St::Idle), inv: *inv }
                 }
+                (St::InF { .. }, Ev::Invoke { .. }) => {
+                    c.bump("skipped.overlapping_calls");
+                    return Verdict::skip("calls of one evaluation overlap (C05)".into());
+                }
                 (St::AfterT { k, a }, _) | (St::InF { k, a, .. }, _) => {
                     return Verdict::violation(
                         "call-skipped",
@@ -406,6 +410,12 @@ pub fn check(scn: &Scenario, c: &mut Counters) -> Verdict {
                 }
                 (St::Idle, Ev::Invoke { f, arg, .. }) => {
                     return Verdict::violation("untraced-invocation", format!("{f}({arg}) invoked outside any traced site"));
+                }
+                (St::InTracer { .. }, Ev::Invoke { .. }) => {
+                    // two calls of one evaluation in flight at once: the evaluation is not sequential
+                    // (C05's business); the per-evaluation site protocol cannot be followed
+                    c.bump("skipped.overlapping_calls");
+                    return Verdict::skip("calls of one evaluation overlap (C05)".into());
                 }
                 (s, e) => return Verdict::harness(format!("history checker lost: state {s:?} event {e:?}")),
             };
